@@ -34,7 +34,7 @@ def _translate_float(target, chk):
     if old != txt:
         open(dst, "w").write(txt)
     if chk is not None:
-        chk.cov.setdefault("translators", []).append({"source": T.TARGETS[target]["file"], "target": "PMH/Model/%s.lean" % target,
+        chk.cov.setdefault("translators", []).append({"source": T.TARGETS[target].get("file") or T.TARGETS[target].get("files"), "target": "PMH/Model/%s.lean" % target,
                                                       "functions": info, "regenerated": old != txt})
     return True, ""
 
@@ -49,11 +49,16 @@ def translate_exp01(chk=None):
     return _translate_float("Exp01Gen", chk)
 
 
+def translate_pmh_constants(chk=None):
+    """C01: Model/PmhConstGen.lean: the rate of ProbMinHash3/3a/3aSha and the beta table of ProbMinHash2, cut out of the constructors"""
+    return _translate_float("PmhConstGen", chk)
+
+
 def translate_shared(chk=None):
     """every property: the driver executes the generated definitions, so they are refreshed before it is built.
     A translator failure is fatal only for the properties that list the translator under `pre`; for the others the
     previous generated file stays and the correspondence run is what speaks."""
-    for f in (translate_jaccard_bounds, translate_exp01):
+    for f in (translate_jaccard_bounds, translate_exp01, translate_pmh_constants):
         ok, d = f(None)
         if not ok and chk is not None:
             chk.cov.setdefault("translator_notes", []).append(d)
@@ -62,7 +67,7 @@ def translate_shared(chk=None):
 
 if __name__ == "__main__":
     if len(sys.argv) > 1 and sys.argv[1] == "all":
-        for f in (translate_invhash, translate_jaccard_bounds, translate_exp01):
+        for f in (translate_invhash, translate_jaccard_bounds, translate_exp01, translate_pmh_constants):
             ok, d = f()
             print(f.__name__ + ":", "ok" if ok else d)
 
